@@ -15,6 +15,7 @@ Object identity (`out is x or out is y`) and dtype (`y.to(x)`) are modelled by `
 -/
 import QV.Model.CplxScalar
 import QV.Model.Hilbert
+import QV.Model.PyFlag
 namespace QV.Cplx
 
 /-- torch dtypes the kernel meets: `cplx.I` is float32, everything else float64. -/
@@ -558,6 +559,13 @@ def einsumS (raw : RawEq) (a b : Tensor α) (realPart imagPart : Bool) : Except 
   match elabEq raw (a.shape.drop 1) (b.shape.drop 1) with
   | .ok eq => einsum eq a b realPart imagPart
   | .error _ => einsum badEq a b realPart imagPart
+
+/-- `einsum(equation, a, b, real_part, imag_part)` with the OBJECTS a caller hands to the two options documented as `bool`
+(cplx.py:209-224): every test of the code is a truth test (`if real_part:`, `if imag_part:`, `if real_part and imag_part:`,
+`elif real_part:`, `elif imag_part:`), never an identity test, so `1` / `0`, `numpy.bool_`, 0-dim bool arrays / tensors select the
+parts like the singletons -/
+def einsumF (raw : RawEq) (a b : Tensor α) (realPart imagPart : PyFlag) : Except PyErr (EinRes α) :=
+  einsumS raw a b realPart.truthy imagPart.truthy
 
 /-- `conj(x)` (cplx.py:248-257) -/
 def conj (x : Tensor α) : Except PyErr (Tensor α) := do
